@@ -289,6 +289,7 @@ class TestRunner(RunnerInterface):
             logging.error(
                 f"Test result {uid} for {name} could not be found and extracted, defaulting to ERROR"
             )
+            node_result["status"] = "ERROR"
         node.prefix = original_prefix
 
         logging.info(f"Finished running test with status {test_status.upper()}")
